@@ -21,6 +21,9 @@ import gc
 from asyncio import events
 
 
+ORDER_COST = 0  # cost of completing a pending item other than the oldest when the loop is quiescent
+
+
 class Pending:
     __slots__ = ("label", "fut", "thunk", "seq")
 
@@ -142,7 +145,7 @@ class VLoop(asyncio.BaseEventLoop):
                         self.pending.remove(p)
                         self._complete(p)
                 elif live:
-                    c = ch.choose(len(live), [0] * len(live)) if len(live) > 1 else 0
+                    c = ch.choose(len(live), [0] + [ORDER_COST] * (len(live) - 1)) if len(live) > 1 else 0
                     p = live[c]
                     self.pending.remove(p)
                     self._complete(p)
